@@ -27,6 +27,10 @@ def run(prop, tier, seed, replay=None):
             c = json.loads(p)
             scen.append({"kind": "udploop", "hist": c["hist"], "result": c["result"], "sent": c["sent"]})
         os.unlink(r.outfile)
+        # announce replies cut in the middle of a peer entry (K whole entries, J stray bytes)
+        for k in range(0, 4):
+            for j in range(0, 6):
+                scen.append({"kind": "udpcut", "k": k, "j": j})
         nloop = len(scen)
         if nloop < 150:
             raise Internal("UdpExchange: only %d reply sequences" % nloop)
